@@ -196,8 +196,13 @@ def run(ctx: core.Ctx) -> core.Report:
             continue
         rx = RecvSD()
         rx.transport = FakeTransport()
-        for data, _ in tx.transport.sent:
-            rx.datagram_received(data, ("127.0.0.2", 30490), False)
+        try:
+            for data, _ in tx.transport.sent:
+                rx.datagram_received(data, ("127.0.0.2", 30490), False)
+        except Exception as e:  # noqa: BLE001
+            rep.violation("C02:live-receive-raises", f"datagram_received raised {exc_name(e)} on a datagram send_sd produced",
+                          {"message": sd_tok(m)})
+            continue
         got = [entry_tok(e) for h in rx.got for e in h.entries]
         want = [entry_tok(e) for e in m.entries]
         rep.dist["live-path"] += 1
